@@ -275,18 +275,38 @@ def _shq(s):
     return "'" + s.replace("'", "'\\''") + "'"
 
 
+def _make_escape_min(s, target):
+    """Only what GNU Make documents: $ doubled, blank # : quoted with a
+    backslash, % quoted in a target (it is literal in the prerequisites of
+    an explicit rule)."""
+    out = []
+    for c in s:
+        if c == '$':
+            out.append('$$')
+        elif c in ' #:' or (c == '%' and target):
+            out.append('\\' + c)
+        else:
+            out.append(c)
+    return ''.join(out)
+
+
 def _reference_make(n, strategy):
     tgt = 'out/' + n
     dep = 'in/' + n
+    head = ''
     if strategy == 0:
         t, d = _make_escape(tgt), _make_escape(dep)
-        head = ''
-    else:
+        tp = t
+    elif strategy == 1:
         t, d = 'out/' + _make_vars(n), 'in/' + _make_vars(n)
+        tp = t
         head = _MAKE_VARDEFS
+    else:
+        t, d = _make_escape_min(tgt, True), _make_escape_min(dep, False)
+        tp = _make_escape_min(tgt, False)
     recipe = 'cp {} {}'.format(_shq(dep), _shq(tgt)).replace('$', '$$')
     return ('{}.SUFFIXES:\nall: {}\n{}: {}\n\t{}\nclean:\n\trm -f {}\n'
-            .format(head, t, t, d, recipe,
+            .format(head, tp, t, d, recipe,
                     _shq(tgt).replace('$', '$$')))
 
 
@@ -334,7 +354,7 @@ def representable(backend, n, kind='plain'):
     if key in _repr_cache:
         return _repr_cache[key]
     ok = False
-    variants = [0, 1] if backend == 'make' and kind == 'plain' else [0]
+    variants = [0, 1, 2] if backend == 'make' and kind == 'plain' else [0]
     for strategy in variants:
         with sandbox.scratch('c04r') as tmp:
             os.makedirs(os.path.join(tmp, 'in'))
